@@ -454,7 +454,8 @@ class ModelInputArrayBijector:
       scale_fn = lambda x, low=low, denom=denom: (np.log(x) - low) / denom
       unscale_fn = lambda x, low=low, denom=denom: np.exp(x * denom + low)
     elif spec.scale == pyvizier.ScaleType.REVERSE_LOG:
-      raw_sum = low + high
+      # NOTE: spec.bounds may be float32 scalars; add them up in float64.
+      raw_sum = float(low) + float(high)
       low, high = np.log(low), np.log(high)
       denom = (high - low) or 1.0
       if denom < 1e-6:
